@@ -37,6 +37,16 @@ type ReqPlan struct {
 	DefaultCode int       `json:"default_code,omitempty"`
 	AuthReject bool       `json:"auth_reject,omitempty"`
 	Faults     sim.Faults `json:"faults"`
+	// NotJudged: the request only exists to disturb the others (its own outcome is not checked).
+	NotJudged  bool       `json:"not_judged,omitempty"`
+	// InjectCred > 0: the transport adds the credential of the (InjectCred-1)-th security scheme of the spec to
+	// the outgoing request (users commonly add API keys in their HTTPClient); the generated client has no
+	// parameter for apiKey-in-query schemes, so this is the only way such a scheme ever authenticates.
+	InjectCred int        `json:"inject_cred,omitempty"`
+	// Parent: this request is not sent by a caller task of its own; the harness handler of request Parent sends
+	// it in-process (LocalClient style) while it is itself being served, passing on its request context -
+	// the "handler fans out to another operation of the same API" pattern.
+	Parent     string     `json:"parent,omitempty"`
 	// Local: the request does not cross the simulated wire; the client's *http.Request is handed to
 	// API.ServeHTTP with an httptest.ResponseRecorder, exactly as the generated LocalClient() does.
 	Local      bool       `json:"local,omitempty"`
@@ -103,6 +113,7 @@ type env struct {
 	api   reflect.Value // *API
 	cli   reflect.Value // *Client
 	res   *RunResult
+	nestedDone map[string]bool
 }
 
 // Transport is the HTTPClient seam of the generated client.
@@ -189,6 +200,20 @@ func (tr *Transport) Do(req *http.Request) (*http.Response, error) {
 	e.s.Yield("transport.Do")
 	if err := req.Context().Err(); err != nil {
 		return nil, err
+	}
+	if rp.InjectCred > 0 && len(e.p.Schemes) > 0 {
+		sc := e.p.Schemes[(rp.InjectCred-1)%len(e.p.Schemes)]
+		switch {
+		case sc.In == "query":
+			q := req.URL.Query()
+			q.Set(sc.Name, "cred-"+tag)
+			req.URL.RawQuery = q.Encode()
+		case sc.In == "header":
+			req.Header.Set(sc.Name, "cred-"+tag)
+		case sc.Bearer:
+			req.Header.Set("Authorization", "Bearer cred-"+tag)
+		}
+		e.s.Probes["credential_injected_by_transport"]++
 	}
 	if rp.Local {
 		return e.localExchange(tag, req, o), nil
@@ -344,7 +369,12 @@ func (e *env) handlerFor(op *Op) reflect.Value {
 		if hr := args[1].MethodByName("HTTP"); hr.IsValid() {
 			if r, ok := hr.Call(nil)[0].Interface().(*http.Request); ok && r != nil {
 				if at, ok := r.Context().Value(authKey{}).(string); ok {
-					d.CtxTag = at
+					for _, ev := range d.Trace {
+						if strings.HasPrefix(ev, "auth ") {
+							d.CtxTag = at // only meaningful when an authenticator ran for THIS delivery (a nested request inherits its parent's context)
+							break
+						}
+					}
 				}
 				if got := r.Header.Get("X-Verif-Tag"); got != d.Tag {
 					d.Trace = append(d.Trace, "handler saw request of tag "+got)
@@ -369,6 +399,22 @@ func (e *env) handlerFor(op *Op) reflect.Value {
 			d.Params = values.Canon(pv)
 			d.ParamsVal = pv
 		}()
+		for _, child := range e.plan.Reqs {
+			if po := e.obs[d.Tag]; child.Parent == d.Tag && child.Parent != "" && !e.nestedDone[child.Tag] && po != nil && len(po.Deliveries) > 0 && po.Deliveries[0] == d {
+				e.nestedDone[child.Tag] = true
+				c := child
+				e.s.Probes["nested_in_process_call"]++
+				d.Trace = append(d.Trace, "handler sends nested request "+c.Tag)
+				hctx, _ := args[0].Interface().(context.Context)
+				if hr := args[1].MethodByName("HTTP"); hr.IsValid() {
+					if r, ok := hr.Call(nil)[0].Interface().(*http.Request); ok && r != nil {
+						hctx = r.Context() // the request's own context, with everything the generated code put into it
+					}
+				}
+				// values are inherited, cancellation is not (the parent's stream faults are the parent's own)
+				e.callerCtx(e.plans[c.Tag], context.WithoutCancel(hctx))
+			}
+		}
 		rp := e.plans[d.Tag]
 		if rp == nil || rp.Kind != 0 || e.p.Ops[rp.Op] != op {
 			// a raw request, or a request routed to another operation than planned: answer with the first response kind
@@ -501,7 +547,9 @@ func (e *env) setup() (restore func()) {
 	return func() {}
 }
 
-func (e *env) caller(rp *ReqPlan) {
+func (e *env) caller(rp *ReqPlan) { e.callerCtx(rp, context.Background()) }
+
+func (e *env) callerCtx(rp *ReqPlan, base context.Context) {
 	o := e.obs[rp.Tag]
 	defer func() {
 		if r := recover(); r != nil {
@@ -519,7 +567,7 @@ func (e *env) caller(rp *ReqPlan) {
 	params, _ := BuildParams(e.p, rp)
 	o.Sent = values.Canon(params)
 	o.SentVal = params
-	ctx, cancel := context.WithCancel(context.WithValue(context.Background(), tagKey{}, rp.Tag))
+	ctx, cancel := context.WithCancel(context.WithValue(base, tagKey{}, rp.Tag))
 	defer cancel()
 	if rp.Faults.CancelBefore {
 		cancel()
@@ -550,7 +598,7 @@ func Exec(p *Pkg, plan *RunPlan, t *tape.Tape, logOn bool) *RunResult {
 	s.SameFunc = func(a, b int) bool {
 		return a>>20 == b>>20 && p.YieldFunc[a&0xfffff] != "" && p.YieldFunc[a&0xfffff] == p.YieldFunc[b&0xfffff]
 	}
-	e := &env{p: p, plan: plan, s: s, obs: res.Obs, plans: map[string]*ReqPlan{}, res: res}
+	e := &env{p: p, plan: plan, s: s, obs: res.Obs, plans: map[string]*ReqPlan{}, res: res, nestedDone: map[string]bool{}}
 	taskData = map[*sim.Task]any{}
 	restore := e.setup()
 	defer restore()
@@ -564,6 +612,9 @@ func Exec(p *Pkg, plan *RunPlan, t *tape.Tape, logOn bool) *RunResult {
 	}
 	for i := range plan.Reqs {
 		rp := &plan.Reqs[i]
+		if rp.Parent != "" {
+			continue // sent by its parent's handler
+		}
 		s.Go("cli:"+rp.Tag, rp.Tag, func() { e.caller(rp) })
 	}
 	// shared-state discipline
